@@ -11,7 +11,8 @@ LEVEL = 'exploration'
 SHARDS = {'quick': 8, 'thorough': 16}
 RULE = ('Pairs (recorded program P, replayed program P\'): P is a Hypothesis-generated program (instance/static outputs, '
         'output data handlers, bursts of up to 21 calls of one alias, worker threads with private aliases, returning or '
-        'raising operation); P\' is P or P after an edit script of 1-3 edits over its output calls (change argument, '
+        'raising operation, optionally a metadata extractor that itself calls an intercepted output and input of the service); '
+        'P\' is P or P after an edit script of 1-3 edits over its output calls (change argument, '
         'change kwarg, drop call, add call of an existing or new alias, swap two calls of one alias, change final '
         'result, raise instead of return); optionally the same recorder first performs other replays of the recording '
         '(successful, failing with a missing key after output calls, failing playback function). The harness journals every output call at the call site. Oracle: '
@@ -236,7 +237,8 @@ edit = st.fixed_dictionaries({
 
 def cases():
     progs = PS.programs(values=V.small_values, in_behs=('ret', 'ret', 'raise'),
-                        out_extra={'fail_missing': st.just(False), 'default': st.none()})
+                        out_extra={'fail_missing': st.just(False), 'default': st.none()},
+                        extractors=('none', 'none', 'ok', 'calls_output'))
     priors = st.lists(st.sampled_from(['failed_replay', 'ok_replay', 'pf_raises']), max_size=2)
     return st.fixed_dictionaries({'prog': progs, 'prior': st.one_of(st.just([]), st.just([]), priors), 'edits': st.one_of(st.just([]), st.lists(edit, min_size=1, max_size=3), st.lists(edit, min_size=1, max_size=3)),
                                   'cassette': st.sampled_from(['memory', 'memory', 'file', 's3', 'async'])})
